@@ -1,11 +1,249 @@
 package replica
 
-import "verifharness/spec"
+import (
+	"encoding/json"
+	"fmt"
+	"strconv"
+
+	"github.com/orda-io/orda/client/pkg/errors"
+	"github.com/orda-io/orda/client/pkg/orda"
+
+	"verifharness/spec"
+	"verifharness/vals"
+)
+
+// DocValue decodes the specification's JSON value encoding
+// ({"t":"p","p":tag} | {"t":"o","o":{k:v}} | {"t":"a","a":[v...]}) into the Go value handed to the
+// API (goVal) and the canonical value a correct replica must show (canon).
+func DocValue(raw json.RawMessage) (goVal interface{}, canon interface{}) {
+	var v interface{}
+	if err := json.Unmarshal(raw, &v); err != nil {
+		panic(fmt.Sprintf("bad doc value %s", raw))
+	}
+	return docValue(v)
+}
+
+func docValue(v interface{}) (interface{}, interface{}) {
+	m, ok := v.(map[string]interface{})
+	if !ok {
+		panic(fmt.Sprintf("bad doc value %v", v))
+	}
+	switch m["t"] {
+	case "p":
+		t := int(m["p"].(float64))
+		if t == vals.Nil {
+			return nil, nil
+		}
+		return vals.Go(t), vals.Canon(t)
+	case "o":
+		g, c := map[string]interface{}{}, map[string]interface{}{}
+		if o, ok := m["o"].(map[string]interface{}); ok {
+			for k, x := range o {
+				g[k], c[k] = docValue(x)
+			}
+		}
+		return g, c
+	case "a":
+		g, c := []interface{}{}, []interface{}{}
+		if a, ok := m["a"].([]interface{}); ok {
+			for _, x := range a {
+				gx, cx := docValue(x)
+				g, c = append(g, gx), append(c, cx)
+			}
+		}
+		return g, c
+	}
+	panic(fmt.Sprintf("bad doc value %v", v))
+}
+
+// DocCanonAny converts a model value, or a list of model values, to canonical form.
+func DocCanonAny(v interface{}) interface{} {
+	switch x := v.(type) {
+	case map[string]interface{}:
+		if _, ok := x["t"]; ok {
+			_, c := docValue(x)
+			return c
+		}
+	case []interface{}:
+		out := make([]interface{}, len(x))
+		for i := range x {
+			out[i] = DocCanonAny(x[i])
+		}
+		return out
+	}
+	return v
+}
+
+func pathOf(c *spec.Call) []string {
+	out := make([]string, len(c.Path))
+	for i, r := range c.Path {
+		json.Unmarshal(r, &out[i])
+	}
+	return out
+}
+
+func resolve(root orda.DocumentInTx, path []string) (orda.Document, error) {
+	var cur orda.Document
+	at := root
+	for _, s := range path {
+		var next orda.Document
+		var err errors.OrdaError
+		if at.GetTypeOfJSON() == orda.TypeJSONObject {
+			next, err = at.GetFromObject(s)
+		} else {
+			i, e := strconv.Atoi(s)
+			if e != nil {
+				return nil, e
+			}
+			next, err = at.GetFromArray(i)
+		}
+		if err != nil {
+			return nil, err
+		}
+		if next == nil {
+			return nil, fmt.Errorf("no child %q", s)
+		}
+		cur, at = next, next
+	}
+	return cur, nil
+}
+
+func docVals(raws []json.RawMessage) []interface{} {
+	out := make([]interface{}, len(raws))
+	for i, r := range raws {
+		out[i], _ = DocValue(r)
+	}
+	return out
+}
+
+func docOf(d orda.Document) interface{} {
+	if d == nil {
+		return nil
+	}
+	c, _ := vals.CanonJSON(d.GetValue())
+	return c
+}
+
+func docsOf(ds []orda.Document) interface{} {
+	out := make([]interface{}, len(ds))
+	for i, d := range ds {
+		out[i] = docOf(d)
+	}
+	return out
+}
 
 func (in *Inst) docCall(api interface{}, c *spec.Call) (res Result) {
-	panic("doc kind not wired yet")
+	defer guard(&res)
+	root := api.(orda.DocumentInTx)
+	var target orda.DocumentInTx = root
+	if c.Dead {
+		h, ok := in.handles[pathKey(pathOf(c))]
+		if !ok || !h.IsGarbage() {
+			res.Err = true
+			res.Ret = SkipNoHandle
+			return
+		}
+		target = h
+	} else if p := pathOf(c); len(p) > 0 {
+		d, err := resolve(root, p)
+		if err != nil {
+			res.Err = true
+			res.Ret = "harness: cannot resolve path: " + err.Error()
+			return
+		}
+		target = d
+	}
+	switch c.Op {
+	case "put":
+		v, _ := DocValue(c.V)
+		old, err := target.PutToObject(c.K, v)
+		res.Err = !isNilErr(err)
+		if !res.Err {
+			res.Ret = docOf(old)
+		}
+	case "rmv":
+		old, err := target.DeleteInObject(c.K)
+		res.Err = !isNilErr(err)
+		if !res.Err {
+			res.Ret = docOf(old)
+		}
+	case "ins":
+		_, err := target.InsertToArray(c.Pos, docVals(c.Vals)...)
+		res.Err = !isNilErr(err)
+	case "del":
+		if c.N == 1 && c.Pos%2 == 0 {
+			old, err := target.DeleteInArray(c.Pos)
+			res.Err = !isNilErr(err)
+			if !res.Err {
+				res.Ret = []interface{}{docOf(old)}
+			}
+		} else {
+			old, err := target.DeleteManyInArray(c.Pos, c.N)
+			res.Err = !isNilErr(err)
+			if !res.Err {
+				res.Ret = docsOf(old)
+			}
+		}
+	case "upd":
+		old, err := target.UpdateManyInArray(c.Pos, docVals(c.Vals)...)
+		res.Err = !isNilErr(err)
+		if !res.Err {
+			res.Ret = docsOf(old)
+		}
+	default:
+		panic("doc op " + c.Op)
+	}
+	return
+}
+
+// SkipNoHandle marks a call on a removed container for which the harness holds no handle.
+const SkipNoHandle = "harness: no handle of a removed container at this path"
+
+func pathKey(p []string) string {
+	b, _ := json.Marshal(p)
+	return string(b)
+}
+
+// readTree rebuilds the JSON view through the element-read API (GetFromObject / GetFromArray) and
+// remembers a handle of every container it passes, as a user holding on to child documents would.
+func (in *Inst) readTree(d orda.Document, view interface{}, path []string) interface{} {
+	switch view.(type) {
+	case map[string]interface{}, []interface{}:
+		if in.handles == nil {
+			in.handles = map[string]orda.Document{}
+		}
+		in.handles[pathKey(path)] = d
+	}
+	sub := func(s string) []string { return append(append([]string{}, path...), s) }
+	switch v := view.(type) {
+	case map[string]interface{}:
+		out := map[string]interface{}{}
+		for k := range v {
+			ch, err := d.GetFromObject(k)
+			if err != nil || ch == nil {
+				out[k] = "unreadable"
+				continue
+			}
+			out[k] = in.readTree(ch, v[k], sub(k))
+		}
+		return out
+	case []interface{}:
+		out := []interface{}{}
+		for i := range v {
+			ch, err := d.GetFromArray(i)
+			if err != nil || ch == nil {
+				out = append(out, "unreadable")
+				continue
+			}
+			out = append(out, in.readTree(ch, v[i], sub(strconv.Itoa(i))))
+		}
+		return out
+	}
+	c, _ := vals.CanonJSON(d.GetValue())
+	return c
 }
 
 func (in *Inst) docObserve(o *RObs) {
-	panic("doc kind not wired yet")
+	o.View, _ = vals.CanonJSON(in.Doc.ToJSON())
+	o.Reads = in.readTree(in.Doc, o.View, nil)
 }
